@@ -45,6 +45,10 @@ def joinValues (o : Opt) : Nat → Nat → Bytes
 def hides (pff : Option (List Bytes)) (name : Bytes) : Bool :=
   match pff with | some l => l.contains name | none => false
 
+/-- `cfg->pff ? cfg->pff : fb_pff` -/
+def effPff (own fb : Option (List Bytes)) : Option (List Bytes) :=
+  match own with | some p => some p | none => fb
+
 def isUnset (o : Opt) : Bool :=
   o.vals.isEmpty || (o.ty == .str && (match o.vals[0]? with | some (Val.str none) => true | _ => false))
 
@@ -77,7 +81,7 @@ def printOpts (pff : Option (List Bytes)) (indent : Nat) : List Opt → Bytes
   | o :: os => (if hides pff o.name then [] else printOpt pff indent o) ++ printOpts pff indent os
 /-- `cfg_print_pff_indent(cfg, fp, fb_pff, indent)` -/
 def printCfg (fb : Option (List Bytes)) (indent : Nat) : Cfg → Bytes
-  | .mk info opts => printOpts (match info.pff with | some p => some p | none => fb) indent opts
+  | .mk info opts => printOpts (effPff info.pff fb) indent opts
 end
 
 /-- `cfg_print` -/
